@@ -249,7 +249,83 @@ def sub_sanity(inp):
     return want
 
 
-SUBS = {'sanity': sub_sanity}
+def _map_model_events(ev, f):
+    if ev is None:
+        return None
+    if ev[0] == 'disj':
+        return ('disj', tuple(_map_model_events(e, f) for e in ev[1]))
+    return f(ev)
+
+
+def _map_lib_events(e, f):
+    """Rebuild an event through but(): simple events through f, disjunctions through but(event1=, event2=)."""
+    if e is None:
+        return None
+    if astx.cname(e) == 'HplEventDisjunction':
+        a, b = _map_lib_events(e.event1, f), _map_lib_events(e.event2, f)
+        return e if (a is e.event1 and b is e.event2) else e.but(event1=a, event2=b)
+    return f(e)
+
+
+def sub_derived(inp):
+    """inp: {'m': property model, 'op': ['ref'|'bind', X, Y]}: the property is parsed (and sanity-checked) first; then a
+    variant is derived FROM ITS OWN EVENT OBJECTS through the library's copy functions - every reference @X renamed to
+    @Y ('ref'), or the event that binds X made to bind Y instead ('bind') - and put together with but(); the verdict
+    must be the one the scoping oracle gives for the derived model (nothing remembered from the first check)."""
+    from hpl.ast import HplVarReference
+
+    m = inp['m']
+    kind, X, Y = inp['op']
+    if sc(m) != 'accept' or any(n[0] == 'q' and n[2] in (X, Y) for n in mast.walk(m)):
+        return 'base-not-usable'
+    text = mast.render(m)
+    k, p = lib.outcome('property', text)
+    if k != 'ast':
+        return 'base-rejected'
+
+    def model_ev(ev):
+        _, topic, alias, pred = ev
+        if kind == 'ref':
+            if pred is not None and alias != X:
+                pred = mast.replace_var_base(pred, X, ('var', Y))
+            return ('ev', topic, alias, pred)
+        if alias == X:
+            return ('ev', topic, Y, None if pred is None else mast.replace_var_base(pred, X, ('var', Y)))
+        return ev
+
+    def lib_ev(e):
+        if kind == 'ref':
+            return e.replace_var_reference(X, HplVarReference('@' + Y))
+        return e.but(alias=Y) if e.alias == X else e
+
+    sc_, pt = m[2], m[3]
+    m2 = ('prop', (), ('scope', sc_[1], _map_model_events(sc_[2], model_ev), _map_model_events(sc_[3], model_ev)),
+          ('pat', pt[1], _map_model_events(pt[2], model_ev), _map_model_events(pt[3], model_ev), pt[4]))  # fmt: skip
+    want = sc(m2)
+    expect = 'accept' if want == 'accept' else 'sanity'
+
+    def derive():
+        skw = {}
+        if p.scope.activator is not None:
+            skw['activator'] = _map_lib_events(p.scope.activator, lib_ev)
+        if p.scope.terminator is not None:
+            skw['terminator'] = _map_lib_events(p.scope.terminator, lib_ev)
+        pkw = {'behaviour': _map_lib_events(p.pattern.behaviour, lib_ev)}
+        if p.pattern.trigger is not None:
+            pkw['trigger'] = _map_lib_events(p.pattern.trigger, lib_ev)
+        return p.but(scope=p.scope.but(**skw) if skw else p.scope, pattern=p.pattern.but(**pkw))
+
+    got, r = _verdict(derive)
+    if got != expect:
+        raise Violation(
+            'derived', f'{kind}:{want}:{got}', dict(inp, text=text),
+            f'{text!r} with {"references to @" + X + " renamed to @" + Y if kind == "ref" else "the binder of " + X + " renamed to " + Y} (derived from the checked '
+            f'property through but() / replace_var_reference()) is {mast.render(m2)!r}: the scoping oracle says {want}, the library says {got} ({str(r)[:200]})',
+        )  # fmt: skip
+    return kind + ':' + want
+
+
+SUBS = {'sanity': sub_sanity, 'derived': sub_derived}
 
 ###############################################################################
 # Generators
@@ -552,6 +628,27 @@ def shard(ctx, shard_no, nshards, n):
                     ctx.report(v)
                     w = 'violation'
                 ctx.case((mast.render(inp['m']), inp['nest']), True, 'duplicate-channel-table:' + w)
+
+    def body_d(inp):
+        w = sub_derived(inp)
+        ctx.case((mast.render(inp['m']), tuple(inp['op'])), not w.startswith('base'), 'derived:' + w)
+
+    def gen_derived(ch):
+        from hplverif import gen
+
+        # a base that is accepted by construction (references only to aliases bound earlier), half of the time
+        if ch.bool():
+            m = gen.properties(ch, depth=ch.int(0, 2), meta=False, max_width=3)[0]
+        else:
+            m = gen_case(ch)['m']
+        aliases = sorted({e[2] for _r, ev in mast.event_positions(m) for e in mast.simple_events(ev) if e[2]})
+        used = sorted({v for _r, ev in mast.event_positions(m) for e in mast.simple_events(ev) if e[3] is not None for v in mast.free_vars(e[3])} & set(aliases))
+        X = ch.pick(used or aliases) if aliases else 'A'
+        Y = ch.pick([y for y in aliases + ['Q9', 'Q9'] if y != X])
+        return {'m': m, 'op': [ch.pick(['ref', 'bind']), X, Y]}
+
+    with ctx.timed('derived'):
+        core.run_hypothesis(ctx, 'derived', from_tape(gen_derived, 256), body_d, max(300, n // 2))
 
     def body_s(inp):
         w = sub_sanity(inp)
